@@ -6,6 +6,7 @@ import CircBuf.Lemmas.Loops
 import CircBuf.Lemmas.Contig
 import CircBuf.Lemmas.Drain
 import CircBuf.Lemmas.Contents
+import CircBuf.Lemmas.ExtendSlice2
 /-!
 # C01 — every mutator implements bounded-deque sequence semantics
 
@@ -89,6 +90,16 @@ theorem C01_extend (m : Nat) (s : Sys) (h : Inv s.buf) (hd : s.faults.drop = 0)
   have := extendIter_runs m s h hd hn hk
   rw [pushMany_contents _ _ _ (by rw [abs_length _ h]; exact h.size_le)] at this
   exact this
+
+/-- `extend_from_slice(other)`: the buffer ends up with the last `cap` elements of
+`contents ++ clones`; only the last `cap` elements of a longer slice are cloned -/
+theorem C01_extend_from_slice (s : Sys) (other : List Elem) (h : Inv s.buf)
+    (hd : s.faults.drop = 0) (hcl : s.faults.clone = 0) :
+    ∃ evs, Runs (extendFromSlice other) s ()
+      (Spec.extend s.buf.cap (abs s.buf)
+        (cloneList s.kind s.next (other.drop (other.length - s.buf.cap))))
+      evs (cloneCount s.kind (other.drop (other.length - s.buf.cap)).length) :=
+  extendFromSlice_runs s other h hd hcl
 
 /-- `fill_spare_with(f)`: the free space is filled with the closure's results, in call order -/
 theorem C01_fill_spare_with (s : Sys) (h : Inv s.buf) (hd : s.faults.drop = 0)
